@@ -116,20 +116,6 @@ def r1_domain_guards(ctx, rule):
                 'remaining level = level - ip level - length level; transitions = length - ngram + 1', facts, call)
     else:
         ctx.ok(rule, KS, 'remaining level = level - ip - ln, transitions = length - ngram + 1')
-    # guesser side: a level is tried while ip + ln <= target (the loops give up only when level > target)
-    for q, bound in ((MC + '_increase_len_for_target', 'self.target_level'), (MC + '_increase_ip_for_target', 'working_target')):
-        g = ctx.fn(q)
-        tests = [U(n.test) for n in walk_local(g) if isinstance(n, ast.If) and U(n.test).startswith('level >')]
-        if 'level > %s' % bound in tests and 'level > self.max_level' in tests:
-            ctx.ok(rule, q, 'gives up only when level > %s' % bound)
-        else:
-            ctx.bad(rule, q, 'budget tests %s' % tests, 'a level must be tried while it does not exceed the remaining budget', None, g)
-    ng = ctx.fn(MC + 'next_guess')
-    wt = [U(k.value) for c in calls_in(ng) if call_name(c) == 'self._increase_ip_for_target' for k in c.keywords if k.arg == 'working_target']
-    if wt == ['self.target_level - self.cur_len[0]']:
-        ctx.ok(rule, MC + 'next_guess', 'initial n-gram budget = target level - length level')
-    else:
-        ctx.bad(rule, MC + 'next_guess', 'working_target %s' % wt, 'ip budget must be target - length level', None, ng)
 
 
 def r1b_recursive_count(ctx, rule):
